@@ -26,12 +26,15 @@ RULE = ("(ip,len) pairs: ip from a boundary pool (0, 1, max, max-1, all-ones / s
         "Regions outside the model, never generated: lone surrogates; a trailing line feed can not survive strip(), so the "
         "'$ before final \\n' reading of the regexes is never exercised; arguments that are neither str nor int nor an address "
         "object; `strict=True`; `debug`.")
-LEVEL_TEXT = ("Theorems (Lean 4, all (ip,len)): every derived value of the modelled IPv4Obj/IPv6Obj equals the ipaddress "
-              "specification (network = ip AND mask, mask = 2^w - 2^(w-len), last = net OR hostmask, dotted-quad / hextet text round "
-              "trips), host bits are kept, every accepted IPv4 text form parses to its value and every accepted IPv4 text is one of "
-              "those forms; IPv6 text: see the per-theorem list. The model (including its re-implementation of the stdlib parsing "
-              "routines and of the two regexes) is tied to the code by differential runs on every check, and the implementation's "
-              "answers are compared to the real `ipaddress` module independently.")
+LEVEL_TEXT = ("Theorems (Lean 4, all (ip,len), no size bound): every derived value of the modelled IPv4Obj/IPv6Obj equals the "
+              "ipaddress specification (network = ip AND mask, mask = 2^w - 2^(w-len), last = net OR hostmask = net + 2^(w-len) - 1, "
+              "dotted-quad / exploded / compressed text round trips through the stdlib parser model), host bits are kept, integer and "
+              "copy constructors build the same object; IPv4 text: every accepted spelling parses to its value (v4_text_forms) and every "
+              "accepted text IS such a spelling of the stored value, everything else raises (v4_rejects); IPv6 text: exploded spellings "
+              "parse to their value, compressed spellings only through the stdlib layer (partial), and an accepted text is consumed "
+              "completely by regex + stdlib (v6_rejects_partial). The model (its re-implementation of the stdlib parsing routines and of "
+              "the two regexes included) is tied to the code by differential runs on every check, and the implementation's answers are "
+              "compared to the real `ipaddress` module independently.")
 LEVEL_NOTE = ("Trusted: Lean kernel; axioms propext/Classical.choice/Quot.sound only; the correspondence harness; Python `re` and "
               "`ipaddress` are modelled (hand-written matchers / re-implementation), their agreement with the real modules is measured, not proved.")
 EXHAUSTIVE = {"quick": False, "thorough": False}
